@@ -19,6 +19,10 @@ type Swarm struct {
 	Stickiness  float64 `json:"stickiness"`
 	Zones       bool    `json:"zones"`
 	ValueWeight [5]int  `json:"value_weights"` // small, nearMax, around2^63, random, adjacent
+	// SnapshotFocus (a quarter of the runs with >= 2 markets): most reads request ALL markets with
+	// MinExchanges 1 and most updates carry one item list for EVERY market, so that a read which is
+	// not atomic over its markets has many chances to return a mix of two cache states.
+	SnapshotFocus bool `json:"snapshot_focus"`
 }
 
 const baseTimeNs = int64(1_700_000_000) * 1_000_000_000
@@ -63,6 +67,7 @@ func Generate(r *rand.Rand) (RunSpec, Swarm) {
 	if sw.ValueWeight == [5]int{} {
 		sw.ValueWeight[3] = 1
 	}
+	sw.SnapshotFocus = r.IntN(4) == 0 && sw.Markets >= 2
 
 	g := &generator{r: r, sw: sw, used: map[uint64]bool{}, cellT: map[int][]int64{}}
 	// market ids
@@ -129,10 +134,17 @@ func (g *generator) genRead() Op {
 	op := Op{Kind: OpRead}
 	n := 1 + r.IntN(len(g.markets))
 	perm := r.Perm(len(g.markets))
+	focus := g.sw.SnapshotFocus && r.IntN(4) != 0
+	if focus {
+		n = len(g.markets)
+	}
 	for _, i := range perm[:n] {
 		min := uint32(1 + r.IntN(4))
 		if r.IntN(25) == 0 {
 			min = 5
+		}
+		if focus {
+			min = 1
 		}
 		op.Params = append(op.Params, ParamItem{Market: g.markets[i], Min: min})
 	}
@@ -271,11 +283,22 @@ func (g *generator) genUpdate() Op {
 	}
 	nMU := 1 + r.IntN(3)
 	injectInvalid := op.ViaServer && r.IntN(8) == 0
+	var all []int // SnapshotFocus: one item list for every market, in random order
+	if g.sw.SnapshotFocus && r.IntN(4) != 0 {
+		all = r.Perm(len(g.markets))
+		nMU = len(all)
+	}
 	for i := 0; i < nMU; i++ {
 		mu := MarketUpdate{Market: pick(r, g.markets)}
 		nP := 1 + r.IntN(4)
 		if r.IntN(20) == 0 {
 			nP = 0
+		}
+		if all != nil {
+			mu.Market = g.markets[all[i]]
+			if nP == 0 {
+				nP = 1
+			}
 		}
 		for j := 0; j < nP; j++ {
 			ex := pick(r, g.exch)
